@@ -939,6 +939,80 @@ func genHygiene(p *pkg, out string) {
 		fmt.Fprintf(&b, "%q", k)
 	}
 	fmt.Fprintf(&b, "].\nDefinition g_wire_translated : nat := %d.\n\n", len(keys))
-	b.WriteString("Lemma sync_wire_hygiene : g_wire_unhygienic = [] /\\ g_wire_translated = 43.\nProof. split; reflexivity. Qed.\n")
+	b.WriteString("Lemma sync_wire_hygiene : g_wire_unhygienic = [] /\\ g_wire_translated = 43.\nProof. split; reflexivity. Qed.\n\n")
+	// one build of the package: the translator and the fingerprints read every non-test file,
+	// the harness is built with -tags verif; a file that is part of only some builds (a
+	// //go:build or +build line, a _GOOS/_GOARCH file name) or a function declared twice would
+	// make them look at different code
+	constrained, dups := p.buildVariants()
+	b.WriteString("(* non-test files that are not part of every build (verif_hooks.go, `//go:build verif`, excepted),\n   and functions declared in more than one file *)\nDefinition g_constrained_files : list string :=\n  [")
+	for i, k := range constrained {
+		if i > 0 {
+			b.WriteString("; ")
+		}
+		fmt.Fprintf(&b, "%q", k)
+	}
+	b.WriteString("].\nDefinition g_duplicate_funcs : list string :=\n  [")
+	for i, k := range dups {
+		if i > 0 {
+			b.WriteString("; ")
+		}
+		fmt.Fprintf(&b, "%q", k)
+	}
+	b.WriteString("].\n\nLemma sync_one_build : g_constrained_files = [] /\\ g_duplicate_funcs = [].\nProof. split; reflexivity. Qed.\n")
 	os.WriteFile(filepath.Join(out, "SyncHygiene.v"), []byte(b.String()), 0o644)
+}
+
+// buildVariants: files with a build constraint or a GOOS/GOARCH suffix, functions declared twice
+func (p *pkg) buildVariants() (constrained, dups []string) {
+	names, _ := filepath.Glob(filepath.Join(p.dir, "*.go"))
+	sort.Strings(names)
+	suffixes := []string{"_linux", "_windows", "_darwin", "_freebsd", "_openbsd", "_netbsd", "_js", "_wasip1", "_plan9", "_solaris", "_aix", "_android", "_ios", "_dragonfly", "_illumos",
+		"_amd64", "_arm64", "_arm", "_386", "_wasm", "_riscv64", "_ppc64", "_ppc64le", "_mips", "_mipsle", "_mips64", "_mips64le", "_s390x", "_loong64", "_unix"}
+	seen := map[string]string{}
+	for _, n := range names {
+		base := filepath.Base(n)
+		if strings.HasSuffix(base, "_test.go") {
+			continue
+		}
+		raw, _ := os.ReadFile(n)
+		head := string(raw)
+		if i := strings.Index(head, "\npackage "); i >= 0 {
+			head = head[:i]
+		}
+		tagged := ""
+		for _, l := range strings.Split(head, "\n") {
+			t := strings.TrimSpace(l)
+			if strings.HasPrefix(t, "//go:build") || strings.HasPrefix(t, "// +build") || strings.HasPrefix(t, "//+build") {
+				tagged = t
+			}
+		}
+		stem := strings.TrimSuffix(base, ".go")
+		for _, sfx := range suffixes {
+			if strings.HasSuffix(stem, sfx) {
+				tagged = "file name " + sfx
+			}
+		}
+		if base == "verif_hooks.go" {
+			if tagged != "//go:build verif" {
+				constrained = append(constrained, base+" ("+tagged+")")
+			}
+			continue
+		}
+		if tagged != "" {
+			constrained = append(constrained, base+" ("+tagged+")")
+		}
+		if f := p.files[base]; f != nil {
+			for _, d := range f.Decls {
+				if fd, ok := d.(*ast.FuncDecl); ok && fd.Name.Name != "init" {
+					k := funcKey(fd)
+					if prev, ok := seen[k]; ok && prev != base {
+						dups = append(dups, k)
+					}
+					seen[k] = base
+				}
+			}
+		}
+	}
+	return
 }
